@@ -91,8 +91,7 @@ def run(index, tier="quick", seed=0) -> Result:
     for kname, role in ((diag_kernel, "diag"), (off_kernel, "off")):
         kn = [x for x in ast.walk(fn.node) if isinstance(x, ast.FunctionDef) and x.name == kname]
         if not kn:
-            res.bad("AXI", f"kernel:{role}:missing", where, f"kernel {kname} not found")
-            continue
+            raise AnalysisError(f"AXI: the {role} kernel {kname} called for the inertia components is not a nested function of _compute_inertia_tensor")
         kn = kn[0]
         subp = kn.args.args[-1].arg          # the index-list parameter (last)
         k = f"ConvexPolyhedron._compute_inertia_tensor:kernel:{role}"
@@ -224,6 +223,24 @@ def run(index, tier="quick", seed=0) -> Result:
     _copy1(res, index, lambda f: f['cls'] == 'ConvexPolyhedron' and f['top'] in ('_compute_inertia_tensor', '_calculate_signed_volume', '_centroid_from_triangulated_surface', '_find_face_centroids', 'get_face_area', '_find_triangle_array_area', 'inertia_tensor'))
     from ..refpoint import check_reference_point
     check_reference_point(res, index, 'ConvexPolyhedron')
+    # MEAN-1: no exact measure is computed from an unweighted average of vertex coordinates (the vertex mean of a face /
+    # of the solid is its centroid only for triangles, parallelograms, regular polygons and centrally symmetric solids)
+    from ..interp import Interp as _Interp
+    for member in ("centroid", "center", "inertia_tensor", "face_centroids", "volume", "surface_area"):
+        p_ = index.effective_prop(cls, member)
+        if p_ is None or p_.getter is None:
+            continue
+        it_ = _Interp(index)
+        r_ = it_.run_entry(p_.getter, cls)
+        vm = sorted({d for (v_, _s, _n) in r_["returns"] for d in v_.deps if d[0] == "vertex-mean"})
+        k_ = f"{cls.name}.{member}"
+        if vm:
+            site = [e for e in r_["events"] if e.type == "reduce" and f"{e.fn}@{getattr(e.node, 'lineno', 0)}" == vm[0][1]]
+            res.bad("MEAN-1", k_ + ":vertex-mean", site[0].where() if site else f"{p_.getter.file}:{p_.getter.lineno}",
+                    f"{k_} depends on an unweighted average of vertex coordinates (`{site[0].src()[:60] if site else vm[0][1]}`): the vertex mean "
+                    "is the centroid only for triangles, parallelograms, regular polygons and centrally symmetric solids")
+        else:
+            res.ok("MEAN-1", k_, nontrivial=False)
     return res
 
 
@@ -338,11 +355,16 @@ def _pax(res, index):
     rets = [n for n in ast.walk(fn.node) if isinstance(n, ast.Return) and n.value is not None]
     if len(rets) != 1:
         raise AnalysisError("translate_inertia_tensor: not a single return expression")
+    mutated = [n for n in ast.walk(fn.node) if (isinstance(n, ast.Assign) and any(isinstance(t, ast.Subscript) for t in n.targets))
+               or isinstance(n, ast.AugAssign)]
+    if mutated:
+        # locals are updated in place: the single-assignment normal form below would misread them
+        raise AnalysisError("PAX: translate_inertia_tensor updates local arrays in place (outside the recognised fragment)")
     got = ev(rets[0].value)      # ev looks through local temporaries itself
     want = Poly.atom("I") + Poly.atom("V") * (Poly.atom("INNER") * Poly.atom("EYE") - Poly.atom("OUTER"))
     if got is None:
-        res.bad("PAX", "translate_inertia_tensor", where, "translate_inertia_tensor is not I + V (|d|^2 1 - d (x) d): the returned expression is not a "
-                "polynomial in I, V, eye(3) and the inner / outer product of the displacement with itself")
+        raise AnalysisError("PAX: the expression returned by translate_inertia_tensor is outside the recognised fragment (polynomial in I, V, eye(3) "
+                            "and the inner / outer product of the displacement with itself)")
     elif got == want:
         res.ok("PAX", "translate_inertia_tensor", sample={"form": "I + V (INNER * EYE - OUTER)", "row_vector": promoted})
     else:
